@@ -8,6 +8,6 @@ CONSTANTS
   MaxCt = 3
 VIEW View
 ACTION_CONSTRAINT Emit
-INVARIANTS TypeOK SortedUnique OracleLaws
-PROPERTIES CapConst FullInsert InsertLaw EraseLaw Independence MultisetLaw ExtractReplace
+INVARIANTS TypeOK SortedUnique OracleLaws OrderLaws
+PROPERTIES CapConst FullInsert InsertLaw EraseLaw Independence MultisetLaw ExtractReplace CopyMoveLaw EraseIfLaw
 CHECK_DEADLOCK FALSE
